@@ -278,9 +278,15 @@ pub fn snap_cmd(args: &[String]) {
             let mut added: Vec<u32> = Vec::new();
             let pk = the_snap.packages_ids();
             let mut last_added: Option<(VersionSetId, NameId)> = None;
-            for _ in 0..nadd {
+            let mut added_for: Vec<(VersionSetId, NameId)> = Vec::new();
+            for ai in 0..nadd {
                 if pk.is_empty() {
                     break;
+                }
+                // a deadline far in the future, set in between additions (half of the time):
+                // configuring the provider must not disturb what was added to it
+                if ai > 0 && rng.chance(0.5) {
+                    sp = sp.with_timeout(std::time::SystemTime::now() + std::time::Duration::from_secs(3600));
                 }
                 let n = *rng.pick(&pk);
                 let r = catch_unwind(AssertUnwindSafe(|| sp.add_package_requirement(n, "*")));
@@ -298,10 +304,24 @@ pub fn snap_cmd(args: &[String]) {
                         lines.push(json!({"ev":"addreq","phase":ph,"n":m.wn(n),"raw":id.0,"captured_raw":captured_raw,
                             "prev":added,"ans_ok":ok,"ans_name":an,"ans_match":am}));
                         added.push(id.0);
+                        added_for.push((id, n));
                         last_added = Some((id, n));
                     }
                     Err(_) => lines.push(json!({"ev":"q_panic","phase":ph,"what":"addreq","id":m.wn(n)})),
                 }
+            }
+            // every version set added earlier still answers for the package it was added for
+            for (id, n) in &added_for {
+                let ans = catch_unwind(AssertUnwindSafe(|| {
+                    let c = sp.get_candidates(*n).now_or_never().unwrap().unwrap_or_default();
+                    let mt = sp.filter_candidates(&c.candidates, *id, false).now_or_never().unwrap();
+                    (m.wn(sp.version_set_name(*id)), mt.iter().map(|s| m.ws(*s)).collect::<Vec<u32>>())
+                }));
+                let (an, am, ok) = match ans {
+                    Ok((a, b)) => (a, b, true),
+                    Err(_) => (0, vec![], false),
+                };
+                lines.push(json!({"ev":"addcheck","phase":ph,"n":m.wn(*n),"raw":id.0,"ans_ok":ok,"ans_name":an,"ans_match":am}));
             }
             let ph2 = format!("{ph}+added");
             interrogate(&cx, the_snap, &sp, &ph2, &mut lines);
